@@ -133,8 +133,8 @@ def tok_json(tokens):
             k = "name"
         elif t.type == tokenlib.ENDMARKER:
             k = "end"
-        elif t.type == tokenlib.STRING:
-            k = "string"
+        elif t.type == tokenlib.STRING or tokenlib.tok_name[t.type].startswith("FSTRING"):
+            k = "string"       # (Python 3.12 tokenizes an f-string as FSTRING_START / _MIDDLE / _END)
         else:
             k = "other"
         out.append([k, t.string])
@@ -148,6 +148,7 @@ MALFORMED = [
     "2 if a else 3", "import os", "os.system('x')", "a @ b", "~a", "a << 2", "not a", "a and b", "1 < 2", "a == b",
     "\\x00", "2 ** (", "((((((((((2", "2))))))))))", "§", "a $ b", "`a`", "2 ** (3", "meter /", "/ second", "3 +/-",
     "(3 +/- )", "+/- 3", "f(x)", "f(2)(3)", "2(3", "2)3(", "a,b", "a, b", "{}", "[]", "()", "(())", "2 ()", "() 2",
+    "2 a f'x' 3", "f'x' a", "2 f\"{a}\" 3", "a rb'x'",
 ]
 
 
